@@ -25,6 +25,7 @@ mod reallayer;
 mod rustrun;
 mod refgram;
 mod replay;
+mod scaled;
 mod scopes;
 mod sha256;
 mod typedefs;
@@ -37,8 +38,12 @@ fn usage() -> ! {
 }
 
 fn main() {
-    let args: Vec<String> = std::env::args().collect();
     install_quiet_panic_hook();
+    run_main(real_main);
+}
+
+fn real_main() {
+    let args: Vec<String> = std::env::args().collect();
     // (child modes skip the self-check: the parent has run it, and tens of thousands of children are started)
     if !matches!(args.get(1).map(|s| s.as_str()), Some("c14-history")) {
         if let Err(e) = sha256::self_check() {
@@ -84,6 +89,31 @@ fn main() {
         Some("c07-probe") => c07::child_probe(args.get(2).and_then(|s| s.parse().ok()).unwrap_or(usize::MAX)),
         Some("c07-one") => c07::child_one(args.get(2).map(|s| s.as_str()).unwrap_or("")),
         Some("c14-history") => c14::child_history(&args[2..]),
+        Some("scaled-report") => {
+            // tooling: what kiki and the reference say about every member of the scaled families
+            let deep = args.get(2).map(|s| s == "deep").unwrap_or(false);
+            for (i, f) in scaled::families(deep).iter().enumerate() {
+                let case = gramsweep::Case::new(f.g.clone(), scaled::presentation(f, i));
+                let t0 = std::time::Instant::now();
+                let gen = gramsweep::generate(&case.rendered.source);
+                let gs = t0.elapsed().as_secs_f64();
+                let t1 = std::time::Instant::now();
+                let rf = refgram::reference(&case.g);
+                let rs = t1.elapsed().as_secs_f64();
+                let (states, class) = match &rf {
+                    Ok(r) => (r.lalr.states.len(), r.class.name().to_string()),
+                    Err(e) => (0, format!("reference error: {e}")),
+                };
+                let bound = match &gen {
+                    gramsweep::Gen::Ok(text) => match gramsweep::bind(&case, text) {
+                        Ok(b) => format!("bound, {} emitted states, {} bytes", b.ex.action.len(), text.len()),
+                        Err(e) => format!("UNBOUND: {e}"),
+                    },
+                    _ => String::new(),
+                };
+                println!("{:40} kiki={} ({gs:.2}s) reference: {class}, {states} LALR states ({rs:.2}s) {bound}", f.name, gen.class());
+            }
+        }
         Some("scope-size") => {
             // tooling: kiki-mc scope-size n t p k [sym]
             let v: Vec<usize> = args[2..6].iter().map(|s| s.parse().unwrap()).collect();
